@@ -351,9 +351,12 @@ def run(repo, rep, want):
         if want == 'C08':
             if 'subclass' not in label:
                 continue
+        elif want == 'C12':
+            if 'cycle' not in label and 'loop' not in label:
+                continue
         elif prop != want:
             continue
-        rule = {'C13': 'C13.a', 'C14': 'C14.a', 'C08': 'C08.e', 'C11': 'C11.d'}[want]
+        rule = {'C13': 'C13.a', 'C14': 'C14.a', 'C08': 'C08.e', 'C11': 'C11.d', 'C12': 'C12.e'}[want]
         n += 1
         warns = []
         try:
@@ -364,7 +367,11 @@ def run(repo, rep, want):
                 want_text, want_exc = None, 'ValueError'
             r = w.top_level_print(value, depth)
         except (Undecided, PathLimit) as e:
-            rep.undecided(rule, 'wrapper-model[%s]' % label, where, str(e))
+            if want == 'C12' and 'depth exceeded' in str(e):
+                rep.fail(rule, 'wrapper-model[%s]' % label, where, 'scenario "%s": the interpreted pipeline keeps descending into the cyclic value '
+                         '(no recursion marker after %d nested calls): printing it does not terminate' % (label, w.it.max_depth))
+            else:
+                rep.undecided(rule, 'wrapper-model[%s]' % label, where, str(e))
             continue
         got = r.value.v if (r.raised is None and isinstance(r.value, Const)) else (prov(r.value) if r.raised is None else None)
         got_exc = r.raised.what.split(':')[0].split('(')[0] if r.raised is not None else None
